@@ -110,10 +110,12 @@ class EventDispatcher:
             self._event_queue.append((event_name, args, kwargs))
             return
 
-        # Existance of the referents shall be guaranteed by the
-        # automatic cleanup
+        # The listeners are snapshotted, hence a handler may have died
+        # during this very dispatch (eg. removed by a previous callback)
         for handler_ref, method_ref in set(self._events[event_name]):
-            method_ref(handler_ref(), *args, **kwargs)
+            handler = handler_ref()
+            if handler is not None:
+                method_ref(handler, *args, **kwargs)
 
     @property
     def dispatch_enabled(self) -> bool:
